@@ -17,8 +17,17 @@ FLAVOURS_6 = [
     "a contract between a helper and its callers shifted: a default argument value, None vs '' vs [] as 'nothing', the order of a returned tuple, an optional flag - and one caller not adapted",
     "a performance rewrite: a precomputed table, a set instead of a list, one regex instead of two passes, slicing / partition instead of split, a loop exited early",
 ]
-if int(R) >= 6:
+FLAVOURS_7 = [
+    "a standard-library function used with slightly wrong semantics: str.strip(chars) vs removeprefix, split / rsplit / partition and maxsplit, re.match vs search vs fullmatch, urljoin / urlsplit quirks, sorted stability and keys, dict ordering",
+    "a boundary between two components moved for one odd shape: where the host ends and the port / path begins, query vs fragment, userinfo vs host, last label vs the rest, first / last path segment",
+    "an invariant of a data structure (counter, cache, ordered list, sentinel) or of a multi-step protocol kept by one method and not by another, visible only after a specific sequence of calls",
+    "an option or default: a changed default value, a flag ignored in one branch, two flags that interact, a flag applied twice, a keyword argument not forwarded to a helper",
+    "Unicode and encodings: normalisation forms, case mapping that changes length or is context dependent, characters outside the BMP, bytes vs str twins, ascii-only assumptions in a regex class or a str method",
+]
+if int(R) == 6:
     FLAVOURS = FLAVOURS_6
+if int(R) >= 7:
+    FLAVOURS = FLAVOURS_7
 TEMPLATE = open(os.path.join(os.path.dirname(os.path.abspath(__file__)), "seed_prompt_template.txt")).read()
 props = [json.loads(l) for l in open("/verif/properties.jsonl")]
 for i, p in enumerate(props):
